@@ -74,7 +74,7 @@ def oracle(ctx, info):
         for x, kind, target, new in spaces.single_element_moves(got):
             nmoves += 1
             sc = info.ref.score(new)
-            if sc < base - THRESH - EPS * max(1.0, abs(base)):
+            if sc < base - THRESH - EPS:
                 ctx.violation('result-improvable-by-one-move', info.case(result=got, move=[x, kind, target], better=new),
                               [got, base], [new, sc])
                 break
@@ -132,7 +132,7 @@ def kernel_matrix(ctx, M, n, case, micro=True):
         ctx.cases += 1
         harness.mark(dict(case, start=st))
         base = score(st)
-        scale = max(1.0, abs(base))
+        scale = 1.0   # absolute tolerances: dyadic penalties, exact float arithmetic
         # macro step: the whole sweep from this start
         if k['_improve_one_ranking'] is not None:
             r = np.array(st, dtype=np.int32)
